@@ -155,7 +155,7 @@ POOL = {
 
 
 class FreeSpec:
-    """A square affine model that need not be triangular: der(s) = a1 plus k equations, each one POOL form
+    """A square affine model that need not be triangular: der(s) = 2 * a1 + u plus k equations, each one POOL form
     applied to an ordered pair of the unknowns a1..ak (or, for "const", to one unknown).  Only non-singular
     systems are enumerated (see free_specs), so for any (s, u) the solution is unique."""
 
@@ -175,7 +175,8 @@ class FreeSpec:
         return ["a%d" % (i + 1) for i in range(self.k)]
 
     def equations(self):
-        eqs = [("eq", ("der", V("s")), V("a1"))]
+        # not an alias form, so that the unknowns are not anchored at the derivative by an alias of their own
+        eqs = [("eq", ("der", V("s")), B("+", B("*", N(2), V("a1")), V("u")))]
         for form, i, j in self.items:
             eqs.append(POOL[form](V("a%d" % i), V("a%d" % j)))
         return eqs
@@ -217,7 +218,7 @@ def make_spec(key):
 
 def free_specs(tier):
     """Every set of k POOL equations over the ordered pairs of k unknowns (k = 2; 3 with the alias forms only,
-    thorough: all forms) whose system, together with der(s) = a1, is non-singular in (der(s), a1..ak)."""
+    thorough: all forms) whose system, together with der(s) = 2 * a1 + u, is non-singular in (der(s), a1..ak)."""
     out = []
     for k in (2, 3):
         forms = list(POOL) if (k == 2 or tier == "thorough") else ["alias", "alias-neg"]
